@@ -107,9 +107,71 @@ pub fn reentrant(kind: u64) -> Vec<u64> {
     out
 }
 
+static PLAIN_CLONES: std::sync::atomic::AtomicU64 = std::sync::atomic::AtomicU64::new(0);
+static PLAIN_NEXT: std::sync::atomic::AtomicU64 = std::sync::atomic::AtomicU64::new(100);
+/// a payload WITHOUT drop glue that is not Copy and whose Clone is not a bitwise copy: it counts the calls and gives
+/// the copy a new serial; `cell` is shared storage that a bitwise copy would alias
+pub struct Plain {
+    serial: u64,
+    cell: &'static std::cell::Cell<u64>,
+}
+impl Clone for Plain {
+    fn clone(&self) -> Plain {
+        use std::sync::atomic::Ordering::SeqCst;
+        PLAIN_CLONES.fetch_add(1, SeqCst);
+        Plain { serial: PLAIN_NEXT.fetch_add(1, SeqCst), cell: Box::leak(Box::new(std::cell::Cell::new(self.cell.get()))) }
+    }
+}
+
+/// `[44 + j, 0, 0]`: copy-on-write / unwrap_or_clone of a SHARED value whose type has no drop glue.
+/// observation `[status, SEP, SEP, Clone calls, the copy has its own serial, the other owner's value is untouched by a
+/// write through the result, count of the other owner afterwards]`
+pub fn plain(kind: u64) -> Vec<u64> {
+    use std::sync::atomic::Ordering::SeqCst;
+    assert!(!std::mem::needs_drop::<Plain>());
+    PLAIN_CLONES.store(0, SeqCst);
+    let a = Arc::new(Plain { serial: 7, cell: Box::leak(Box::new(std::cell::Cell::new(1))) });
+    let other = a.clone();
+    let r = catch_unwind(AssertUnwindSafe(move || -> (u64, u64) {
+        match kind {
+            0 => {
+                let mut a = a;
+                let m = Arc::make_mut(&mut a);
+                m.cell.set(2);
+                (m.serial, 0)
+            }
+            1 => {
+                let mut o = Arc::into_raw_offset(a);
+                let m = o.make_mut();
+                m.cell.set(2);
+                (m.serial, 0)
+            }
+            2 => {
+                let mut a = a;
+                let u = Arc::make_unique(&mut a);
+                u.cell.set(2);
+                (u.serial, 0)
+            }
+            _ => {
+                let v = Arc::unwrap_or_clone(a);
+                v.cell.set(2);
+                (v.serial, 0)
+            }
+        }
+    }));
+    let mut out = vec![r.is_err() as u64, SEP, SEP, PLAIN_CLONES.load(SeqCst)];
+    out.push(r.as_ref().map_or(0, |x| (x.0 != 7) as u64));
+    out.push((other.cell.get() == 1 && other.serial == 7) as u64);
+    out.push(Arc::strong_count(&other) as u64);
+    out
+}
+
 pub fn run1(kind: u64, n: usize, k: u64) -> Vec<u64> {
+    if kind >= 24 {
+        return if kind < 28 && n == 0 && k == 0 { plain(kind - 24) } else { vec![98] };
+    }
     if kind >= 20 {
-        return if kind < 24 && n == 0 && k == 0 { reentrant(kind - 20) } else { vec![98] };
+        return if n == 0 && k == 0 { reentrant(kind - 20) } else { vec![98] };
     }
     if n > 16 {
         return vec![99];
